@@ -39,6 +39,9 @@ type Op struct {
 	Sel   int    `json:"sel"`   // list / watch selector index
 	WKind int    `json:"wkind"` // watch: 0 single 1 kind 2 aggregated
 	WOpt  int    `json:"wopt"`  // watch: 0 plain 1 bootstrap contents 2 bootstrap bookmark 3 tail
+	// Skip (get, list, watch): the call carries the skip-protobuf-unmarshal option (a state accessed directly
+	// ignores it; over gRPC resources then arrive undecoded - same metadata, same spec contents)
+	Skip  bool   `json:"skip,omitempty"`
 	Val   string `json:"val"`
 	SetPh int    `json:"setph"` // update: -1 keep phase, 0/1 set
 }
@@ -103,6 +106,7 @@ func GenDiff(t *rapid.T) Plan {
 			Sel:   rapid.IntRange(0, len(sels)-1).Draw(t, "sel"),
 			WKind: rapid.IntRange(0, 2).Draw(t, "wkind"),
 			WOpt:  rapid.IntRange(0, 3).Draw(t, "wopt"),
+			Skip:  rapid.IntRange(0, 3).Draw(t, "skip") == 0,
 			Val:   rapid.SampledFrom([]string{"x", "y", "1000", "2k"}).Draw(t, "val"),
 			SetPh: rapid.SampledFrom([]int{-1, -1, -1, 0, 1}).Draw(t, "setph"),
 		}
@@ -110,7 +114,8 @@ func GenDiff(t *rapid.T) Plan {
 
 	// two watches are always started early so that event sequences get compared on every plan
 	for i := 0; i < 2; i++ {
-		p.Ops = append([]Op{{K: "watch", ID: i, Sel: rapid.IntRange(0, len(sels)-1).Draw(t, "wsel"), WKind: rapid.IntRange(0, 2).Draw(t, "wk"), WOpt: rapid.IntRange(0, 2).Draw(t, "wo")}}, p.Ops...)
+		p.Ops = append([]Op{{K: "watch", ID: i, Sel: rapid.IntRange(0, len(sels)-1).Draw(t, "wsel"), WKind: rapid.IntRange(0, 2).Draw(t, "wk"), WOpt: rapid.IntRange(0, 2).Draw(t, "wo"),
+			Skip: rapid.IntRange(0, 3).Draw(t, "wskip") == 0}}, p.Ops...)
 	}
 
 	return p
@@ -238,12 +243,23 @@ func (s *side) apply(ctx context.Context, op Op, n int) result {
 	case "destroy":
 		r.err = s.st.Destroy(ctx, ptr, state.WithDestroyOwner(owner))
 	case "get":
+		if op.Skip {
+			r.res, r.err = s.st.Get(ctx, ptr, state.WithGetUnmarshalOptions(state.WithSkipProtobufUnmarshal()))
+
+			break
+		}
+
 		r.res, r.err = s.st.Get(ctx, ptr)
 		if r.err == nil {
 			s.last[k] = append(s.last[k], r.res.DeepCopy())
 		}
 	case "list":
-		l, err := s.st.List(ctx, ptr, sels[op.Sel]...)
+		lopts := append([]state.ListOption(nil), sels[op.Sel]...)
+		if op.Skip {
+			lopts = append(lopts, state.WithListUnmarshalOptions(state.WithSkipProtobufUnmarshal()))
+		}
+
+		l, err := s.st.List(ctx, ptr, lopts...)
 		r.err, r.list = err, l.Items
 	case "uwc":
 		r.res, r.err = s.st.UpdateWithConflicts(ctx, ptr, func(x resource.Resource) error {
@@ -281,6 +297,9 @@ func (s *side) apply(ctx context.Context, op Op, n int) result {
 		}
 
 		kopts := append([]state.WatchKindOption(nil), wsels[op.Sel]...)
+		if op.Skip {
+			kopts = append(kopts, state.WithWatchKindUnmarshalOptions(state.WithSkipProtobufUnmarshal()))
+		}
 
 		switch op.WOpt {
 		case 1:
@@ -298,6 +317,10 @@ func (s *side) apply(ctx context.Context, op Op, n int) result {
 			var wo []state.WatchOption
 			if op.WOpt == 3 {
 				wo = append(wo, state.WithTailEvents(2+op.Fin))
+			}
+
+			if op.Skip {
+				wo = append(wo, state.WithWatchUnmarshalOptions(state.WithSkipProtobufUnmarshal()))
 			}
 
 			w.err = s.st.Watch(ctx, ptr, ch, wo...)
@@ -454,7 +477,8 @@ func runDiff(p Plan) (v hk.Verdict) {
 			conflictClass++
 		}
 
-		if (a.res == nil) != (b.res == nil) || (a.res != nil && !resource.Equal(a.res, b.res)) {
+		// (an undecoded resource is another Go type than the decoded one: compare what it says)
+		if (a.res == nil) != (b.res == nil) || (a.res != nil && !op.Skip && !resource.Equal(a.res, b.res)) || (a.res != nil && op.Skip && resDesc(a.res) != resDesc(b.res)) {
 			v.Failf("%s: returned resources differ: direct %s, remote %s", what, resDesc(a.res), resDesc(b.res))
 
 			return v
@@ -482,7 +506,7 @@ func runDiff(p Plan) (v hk.Verdict) {
 		}
 
 		for j := range a.list {
-			if !resource.Equal(a.list[j], b.list[j]) {
+			if (!op.Skip && !resource.Equal(a.list[j], b.list[j])) || (op.Skip && resDesc(a.list[j]) != resDesc(b.list[j])) {
 				v.Failf("%s: list item %d differs: direct %s, remote %s", what, j, resDesc(a.list[j]), resDesc(b.list[j]))
 
 				return v
